@@ -9,4 +9,24 @@ def _e(ws, pkg, level, **kw):
 REGISTRY = {
     "C01": _e("harness", "eng_parser", "exploration"),
     "C02": _e("harness", "eng_parser", "exploration"),
+    "C35": _e("harness", "eng_cli", "model_checking", build=["eng_cli", "emmylua_doc_cli"]),
+    "C36": _e("harness", "eng_cli", "model_checking", build=["eng_cli", "emmylua_check"]),
+    "C39": _e("harness", "eng_cli", "fault_enumeration", build=["eng_cli", "emmylua_formatter"]),
+    "C08": _e("harness", "eng_state", "model_checking"),
+    "C09": _e("harness", "eng_state", "model_checking"),
+    "C10": _e("harness", "eng_state", "model_checking"),
+    "C11": _e("harness", "eng_state", "model_checking"),
+    "C33": _e("harness", "eng_state", "model_checking"),
+    "C03": _e("harness", "eng_parser", "exploration"),
+    "C04": _e("harness", "eng_parser", "model_checking"),
+    "C12": _e("harness", "eng_types", "exploration"),
+    "C16": _e("harness", "eng_types", "exploration"),
+    "C17": _e("harness", "eng_types", "exploration"),
+    "C18": _e("harness", "eng_types", "exploration"),
+    "C19": _e("harness", "eng_diag", "exploration"),
+    "C20": _e("harness", "eng_diag", "exploration"),
+    "C21": _e("harness", "eng_diag", "exploration"),
+    "C13": _e("harness", "eng_flow", "exploration"),
+    "C15": _e("harness", "eng_flow", "exploration"),
+    "C41": _e("harness", "eng_flow", "exploration"),
 }
